@@ -122,7 +122,7 @@ def refute_and_replay(pid, g, gres, fails, woven, scratch):
         for o in failing[:3]:
             candidates.append((g['replay'], collect_inputs(o.get('trace')), gres['id']))
     # 2. bounded refuters from the real initial state
-    groups = {x['id']: x for x in run.load_groups()}
+    groups = {x['id']: x for x in run.load_groups(all_units=True)}
     for rid in g.get('refuters', []):
         rg = groups.get(rid)
         if not rg:
